@@ -165,7 +165,7 @@ CLAIMS = {
                 "newline is prepended to every printer line and changes nothing else; the filtered text parses to exactly the allowed sub-tree at level 0 (every tree of the parser's "
                 "shape, no hypothesis on the levels) and at every attributes level >= 1 on the domain stree_ok (bool/int attributes, and string-valued help/caption/short_caption/style/alias "
                 "with any characters that fit on their printed line): the re-parsed tree carries exactly the attributes visible at that level; the trees re-parsed from any two levels >= 0 agree once "
-                "attributes are ignored (22 theorems). PARTIAL: re-flowed (wrapped) texts, .type / .call / Auto-valued attributes, deprecated definitions and dotted names at levels >= 1 in the re-parse "
+                "attributes are ignored; the same for deprecated definitions at level 3 and dotted names at every level >= 1, pruning preserving those domains (28 theorems). PARTIAL: re-flowed (wrapped) texts, .type / .call / Auto-valued attributes in the re-parse "
                 "clauses are decided by correspondence (text byte for byte) + oracle on every run.",
         "note": "Trusted as C01. The oracle's view() is the property text made executable.",
     },
